@@ -55,6 +55,20 @@ func AdversarialValues(prev []byte) [][]byte {
 	}
 	hdr := append(append([]byte{}, mb2...), 0, 0, 0, 4, 0, 0, 0, 70)
 	out = append(out, append(hdr, []byte(`{"x":{"o":0,"l":0}}`)...)) // leading half of a root record, no trailer
+	// a perfectly framed root record (magics, version, both lengths, and an
+	// offset that is right for a value of a 1-byte key written next) whose body
+	// is not JSON: not a self-consistent root record, the scan must go on
+	{
+		body := []byte(`{"x":{"o":0,"l":0},,,not json`)
+		length := uint32(12 + 4 + 4 + len(body) + 8 + 4 + 12)
+		landing := int64(len(prev)) + 16 + 1
+		fr := append([]byte{}, mb2...)
+		fr = append(fr, 0, 0, 0, 4, byte(length>>24), byte(length>>16), byte(length>>8), byte(length))
+		fr = append(fr, body...)
+		fr = append(fr, be(landing, length)...)
+		fr = append(fr, me2...)
+		out = append(out, fr)
+	}
 	// trailers of, and byte-exact copies of, the genuine root records already in
 	// the file: the newest one and up to two older ones (an older record must
 	// not be resurrected by a fragment that merely points at it)
